@@ -11,6 +11,23 @@ package ante
 // (`pure as` is an assumption about them; their bodies are checked below only for the shape of the decorator chain.)
 func newEVMAnteHandler
     pure as evm_handler
+    // shape of the Ethereum route's chain, by decorator type and relative order (not by position: adding a decorator is harmless).
+    // C06: the Ethereum route admits Ethereum messages only - EthValidateBasicDecorator (which refuses any other message type and
+    // extra extension options) runs before everything that acts on the messages
+    call ChainAnteDecorators requires c06_basic_first: exists a int, b int :: 0 <= a && a < b && b < len(chain) && typeof(chain[a]) == typetag("github.com/haqq-network/haqq/app/ante/evm.EthValidateBasicDecorator") && typeof(chain[b]) == typetag("github.com/haqq-network/haqq/app/ante/evm.EthSigVerificationDecorator")
+            && (exists a int, b int :: 0 <= a && a < b && b < len(chain) && typeof(chain[a]) == typetag("github.com/haqq-network/haqq/app/ante/evm.EthValidateBasicDecorator") && typeof(chain[b]) == typetag("github.com/haqq-network/haqq/app/ante/evm.EthGasConsumeDecorator"))
+    // C03: the signature is verified before the sender's account is looked at, charged or its sequence advanced
+    call ChainAnteDecorators requires c03_sig_before_account: exists a int, b int :: 0 <= a && a < b && b < len(chain) && typeof(chain[a]) == typetag("github.com/haqq-network/haqq/app/ante/evm.EthSigVerificationDecorator") && typeof(chain[b]) == typetag("github.com/haqq-network/haqq/app/ante/evm.EthAccountVerificationDecorator")
+    call ChainAnteDecorators requires c03_sig_before_fee: exists a int, b int :: 0 <= a && a < b && b < len(chain) && typeof(chain[a]) == typetag("github.com/haqq-network/haqq/app/ante/evm.EthSigVerificationDecorator") && typeof(chain[b]) == typetag("github.com/haqq-network/haqq/app/ante/evm.EthGasConsumeDecorator")
+    call ChainAnteDecorators requires c03_sig_before_nonce: exists a int, b int :: 0 <= a && a < b && b < len(chain) && typeof(chain[a]) == typetag("github.com/haqq-network/haqq/app/ante/evm.EthSigVerificationDecorator") && typeof(chain[b]) == typetag("github.com/haqq-network/haqq/app/ante/evm.EthIncrementSenderSequenceDecorator")
+    // C07: both fee floors and the fee deduction are part of the chain; the floor is checked before the fee is taken
+    call ChainAnteDecorators requires c07_floor_before_fee: exists a int, b int :: 0 <= a && a < b && b < len(chain) && typeof(chain[a]) == typetag("github.com/haqq-network/haqq/app/ante/evm.EthMinGasPriceDecorator") && typeof(chain[b]) == typetag("github.com/haqq-network/haqq/app/ante/evm.EthGasConsumeDecorator")
+    call ChainAnteDecorators requires c07_mempool_floor: exists k int :: 0 <= k && k < len(chain) && typeof(chain[k]) == typetag("github.com/haqq-network/haqq/app/ante/evm.EthMempoolFeeDecorator")
+    // C08: the vesting guard and the balance check run before the fee is deducted and the sequence advanced
+    call ChainAnteDecorators requires c08_vesting_guard: exists a int, b int :: 0 <= a && a < b && b < len(chain) && typeof(chain[a]) == typetag("github.com/haqq-network/haqq/app/ante/evm.EthVestingTransactionDecorator") && typeof(chain[b]) == typetag("github.com/haqq-network/haqq/app/ante/evm.EthIncrementSenderSequenceDecorator")
+    call ChainAnteDecorators requires c08_can_transfer: exists a int, b int :: 0 <= a && a < b && b < len(chain) && typeof(chain[a]) == typetag("github.com/haqq-network/haqq/app/ante/evm.CanTransferDecorator") && typeof(chain[b]) == typetag("github.com/haqq-network/haqq/app/ante/evm.EthGasConsumeDecorator")
+    // C17: the gas-wanted accumulation feeds the base fee
+    call ChainAnteDecorators requires c17_gas_wanted: exists k int :: 0 <= k && k < len(chain) && typeof(chain[k]) == typetag("github.com/haqq-network/haqq/app/ante/evm.GasWantedDecorator")
 func newLegacyCosmosAnteHandlerEip712
     pure as eip712_handler
     call ChainAnteDecorators requires reject_first: len(chain) >= 2
